@@ -244,11 +244,15 @@ class TransformationGraph(Graph):
             # used multiple times, especially if passthrough is disabled
             self.expr_nodes[expr] = current
 
-            canonical = expr.type in self.language.canon
+            # The type may be a variable that was bound after the source was
+            # fixed: follow it, as for operations
+            source_type = expr.type.normalize()
+
+            canonical = source_type in self.language.canon
 
             if self.with_types and (canonical or self.with_noncanonical_types):
 
-                type_node = self.add_type(expr.type)
+                type_node = self.add_type(source_type)
                 self.add((current, TF.type, type_node))
 
                 if self.with_supertypes and canonical:
@@ -257,8 +261,8 @@ class TransformationGraph(Graph):
                 if self.with_membership:
                     self.add((root, TF.containsType, type_node))
 
-                if (isinstance(expr.type, TypeOperation) and canonical):
-                    for stype in self.language.supertypes(expr.type, 
+                if (isinstance(source_type, TypeOperation) and canonical):
+                    for stype in self.language.supertypes(source_type, 
                             transitive=True):
                         stype_node = self.add_type(stype)
                         if self.with_membership_supertypes:
@@ -268,7 +272,7 @@ class TransformationGraph(Graph):
 
             if self.with_labels:
                 self.add((current, RDFS.label,
-                    Literal(f"{expr.type} from source")))
+                    Literal(f"{source_type} from source")))
 
         elif isinstance(expr, Operation):
             # assert not expr.operator.definition, \
